@@ -923,6 +923,15 @@ fn main() {
                     if bad.is_empty() { "ok".into() } else { bad.join("; ") }
                 }
             }
+            "rotate_wait" => match w.ks.get(a[0]) {
+                // rotate the memtable and wait until a worker thread has flushed it
+                Some(k) => match k.inner().rotate_memtable_and_wait() { Ok(()) => "ok".into(), Err(e) => format!("err:{}", errname(&e)) },
+                None => "err:NoKs".into(),
+            },
+            "l0_runs" => match w.ks.get(a[0]) {
+                Some(k) => { use fjall::AbstractTree; format!("n={}", k.inner().tree.l0_run_count()) }
+                None => "err:NoKs".into(),
+            },
             "bigbatch" => {
                 // bigbatch <ks> <n>: one write batch of n items (keys "b" + 8-digit number, 1-byte values)
                 let Some(k) = w.ks.get(a[0]) else { println!("R {} bigbatch => err:NoKs", ln + 1); continue };
